@@ -389,7 +389,8 @@ def register_xy_extents(reg):
             + ([('self.w_out, self.h_out', 'self.w_in, self.h_in')] if 'w_in' in fields else []),
         ))
     for cls, R in (('CircularAperture', 'r'), ('CircularAnnulus', 'r_out')):
-        fields = {'r': 'posreal'} if R == 'r' else {'r_in': 'posreal', 'r_out': 'posreal'}
+        fields = {'r': 'posreal', 'x': 'real', 'y': 'real'} if R == 'r' \
+            else {'r_in': 'posreal', 'r_out': 'posreal'}
         reg.record(cls, fields)
         reg.add(Contract(
             target=f'photutils/aperture/circle.py::{cls}._xy_extents', props=['C01'],
